@@ -158,4 +158,52 @@ theorem splitBodyF_full_but_last (limit : Nat) :
     · have := splitBodyF_length_le_one_of_le (n + 1) content hgt
       omega
 
+/-- Position-wise: piece `i` is exactly bytes `[i*limit, (i+1)*limit)` of the content, and there is
+    a piece `i` exactly when byte `i*limit` exists. -/
+theorem splitBodyF_getElem? {limit : Nat} (hl : 0 < limit) :
+    ∀ (n : Nat) (content : Bytes), content.length ≤ n → ∀ (i : Nat),
+      (splitBodyF n limit content)[i]? =
+        if i * limit < content.length then some ((content.drop (i * limit)).take limit) else none := by
+  intro n
+  induction n with
+  | zero =>
+    intro content hn i
+    have : content = [] := List.eq_nil_of_length_eq_zero (Nat.le_zero.mp hn)
+    subst this
+    simp [splitBodyF]
+  | succ n ih =>
+    intro content hn i
+    simp only [splitBodyF]
+    by_cases hgt : content.length > limit
+    · rw [if_pos hgt]
+      cases i with
+      | zero =>
+        have hpos : 0 * limit < content.length := by omega
+        rw [if_pos hpos]
+        simp
+      | succ j =>
+        have hd : (content.drop limit).length = content.length - limit := List.length_drop
+        rw [List.getElem?_cons_succ, ih (content.drop limit) (by omega) j, hd, List.drop_drop,
+          Nat.succ_mul]
+        by_cases hj : j * limit < content.length - limit
+        · have hj' : j * limit + limit < content.length := by omega
+          rw [if_pos hj, if_pos hj', Nat.add_comm limit (j * limit)]
+        · have hj' : ¬ j * limit + limit < content.length := by omega
+          rw [if_neg hj, if_neg hj']
+    · rw [if_neg hgt]
+      cases content with
+      | nil => simp
+      | cons b bs =>
+        cases i with
+        | zero =>
+          have hle : (b :: bs).length ≤ limit := by omega
+          simp only [List.isEmpty_cons, Bool.false_eq_true, if_false, List.getElem?_cons_zero,
+            Nat.zero_mul, List.drop_zero]
+          rw [if_pos (by simp), List.take_of_length_le hle]
+        | succ j =>
+          have hge : ¬ (j + 1) * limit < (b :: bs).length := by
+            rw [Nat.succ_mul]; omega
+          rw [if_neg hge]
+          simp
+
 end AmqModel.Split
